@@ -86,11 +86,11 @@ def observations(e, sandwich):
 
 
 def build_cases(states, events, keep, twins=False, chunk=12, readback=True, sandwich=None, mutations=None,
-                sandwich_state=None):
+                sandwich_state=None, sound=False):
     """One case per state with all non-mutating calls on one materialisation, and cases of <= chunk mutating
     calls each of which starts from a fresh materialisation of the state (fresh LayeredFilesystem object).
     sandwich: every mutation is preceded and followed by the observations() of its target on the SAME object (and
-    followed by them on a clone taken before it).  Case k spells its layer roots in style k mod 7 (0 = plain)."""
+    followed by them on a clone taken before it).  Case k spells its layer roots in style k mod 9 (0 = plain)."""
     cases = []
     evs = [e for e in events if keep(e) or (mutations and e["op"] in MUTATING and mutations(e))]
     expanded = []
@@ -99,14 +99,18 @@ def build_cases(states, events, keep, twins=False, chunk=12, readback=True, sand
             # configuration of the archive x its provenance: built through the API (dirty), parsed from bytes as the
             # typed readers hand it out (clean), new with only a title (text archives)
             combos = (("le", "built"),) if sandwich == "c13" else \
-                (("le", "built"), ("be", "built"), ("le", "loaded"), ("be", "titled")) if e["op"] == "write_text_archive" else \
-                (("le", "built"), ("be", "built"), ("le", "loaded"))
+                (("le", "built"), ("be", "built"), ("le", "loaded"), ("be", "titled"), ("le", "reread")) \
+                if e["op"] == "write_text_archive" else (("le", "built"), ("be", "built"), ("le", "loaded"), ("le", "reread"))
             for fix, prov in combos:
                 x = dict(e)
                 x["fix"], x["prov"] = fix, prov
                 expanded.append(x)
         else:
             expanded.append(dict(e))
+    if sound:
+        for e in expanded:
+            if e["op"] in LIST_OPS and not e["glob"]["some"]:
+                e["sound"] = True      # the harness puts the listed paths to exists() right after (ListSound)
     q = [e for e in expanded if e["op"] not in MUTATING]
     m = [e for e in expanded if e["op"] in MUTATING]
     for e in m:
@@ -115,6 +119,8 @@ def build_cases(states, events, keep, twins=False, chunk=12, readback=True, sand
             # read-after-write: the same path with the same localisation choice is read back (and looked up) on the
             # same directories right after each write
             follow = [_q(op, e["p"]["c"], e["p"]["t"], e["loc"]) for op in ("read", "file_exists", "resolve")]
+            if e["op"] in ("write_archive", "write_text_archive"):     # ... and through the matching typed reader
+                follow.append(_q(e["op"].replace("write_", "read_"), e["p"]["c"], e["p"]["t"], e["loc"]))
         if sandwich and (sandwich == "c13" or e["op"] == "create_dir" or e.get("data") == [1, 2, 3]
                          or (e.get("fix"), e.get("prov")) == ("le", "built")):
             obs = observations(e, sandwich)
@@ -147,9 +153,10 @@ def build_cases(states, events, keep, twins=False, chunk=12, readback=True, sand
         for k in range(0, len(ms), chunk):
             cases.append(dict(base, events=ms[k:k + chunk], fresh=True))
     # the statement does not restrict how the caller spells a layer root: plain, trailing '/', "<root>/x/../lN",
-    # doubled '/', a symlink to the layer directory, relative to the working directory (harness: ROOT_STYLES)
+    # doubled '/', a symlink to the layer directory, relative to the working directory, layer directories with
+    # non-ASCII names (harness: ROOT_STYLES)
     for k, c in enumerate(cases):
-        c["roots"] = k % 7
+        c["roots"] = k % 9
     return cases
 
 
@@ -378,7 +385,7 @@ def pick_sandwich_states(states, gi):
 
 
 def run_fs(ctx, laws, keep, owns, profile=None, twins=False, post=None, lz=False, unsupported_games=False, sandwich=None,
-           mutations=None, big_payloads=False, profile_build="release", also_checked=False, second_gen=True):
+           mutations=None, big_payloads=False, profile_build="release", also_checked=False, second_gen=True, sound=False):
     """model check -> generate -> replay -> validate -> (record -> validate).  Returns (replayed events, recorded events)."""
     binary = ctx.build(profile_build, "mvh_fs")
     # 1. the laws on the bounded model
@@ -400,7 +407,7 @@ def run_fs(ctx, laws, keep, owns, profile=None, twins=False, post=None, lz=False
             states = deeper[::2]
         n_states += len(states)
         cases = build_cases(states, alphabet, keep, twins=twins, readback=not twins, sandwich=sandwich, mutations=mutations,
-                            sandwich_state=pick_sandwich_states(states, gi))
+                            sandwich_state=pick_sandwich_states(states, gi), sound=sound)
         if big_payloads and gi == 0:
             # payloads across the 4096-byte window, written into the empty single-layer configuration of one pair per
             # game and read back on the same object
@@ -445,7 +452,7 @@ def run_fs(ctx, laws, keep, owns, profile=None, twins=False, post=None, lz=False
     # 3. impl -> spec
     rec = []
     if profile:
-        runs, length = ctx.pick((48, 100), (600, 100))
+        runs, length = ctx.pick((48, 100), (450, 100))
         rec = record(ctx, binary, runs, length, profile, "rec")
         bad = validate(ctx, rec, "rec")
         report(ctx, rec, bad, owns, "impl->spec")
